@@ -38,6 +38,7 @@ package netlist
 //@   ensures !list.sorted
 //@   ensures len(list.e) == old(len(list.e)) + len(newNet)
 //@   ensures forall k int :: 0 <= k && k < old(len(list.e)) ==> list.e[k] == old(list.e[k])
+//@   ensures old(rep6(list)) ==> rep6(list)
 //@   ensures forall i int :: 0 <= i && i < len(newNet) ==> el6(list.e[old(len(list.e)) + i]) && list.e[old(len(list.e)) + i].addr.v == pfirst(old(newNet[i].addr.v), old(eb(newNet[i]))) && list.e[old(len(list.e)) + i].bits == old(eb(newNet[i]))
 //@   loop 0:
 //@     invariant forall k int :: 0 <= k && k < it0 ==> el6(newNet[k]) && newNet[k].addr.v == pfirst(old(newNet[k].addr.v), old(eb(newNet[k]))) && newNet[k].bits == old(eb(newNet[k]))
@@ -59,6 +60,7 @@ package netlist
 
 // Sort: afterwards the representation invariant holds and the covered set is unchanged.
 //@ func (list *List) Sort [C13]
+//@   log listSort
 //@   requires list != nil && rep6(list)
 //@   modifies list.e, list.sorted, elems(list.e)
 //@   ensures list.sorted
@@ -109,8 +111,9 @@ package netlist
 // it; a bare address as its single-address prefix; a parse error is returned and nothing appended.
 //@ func LoadFromText [C13]
 //@   log netlistLoadFromText
-//@   requires l != nil
+//@   requires l != nil && rep6(l)
 //@   modifies *
+//@   ensures rep6(l)
 //@   ensures containsRune(s, 47) ==> calls(ParsePrefix) == 1 && arg(ParsePrefix, 0, 0) == s && calls(ParseAddr) == 0
 //@   ensures !containsRune(s, 47) ==> calls(ParseAddr) == 1 && arg(ParseAddr, 0, 0) == s && calls(ParsePrefix) == 0
 //@   ensures result == nil ==> calls(listAppend) == 1 && arg(listAppend, 0, 0) == l && len(arg(listAppend, 0, 1)) == 1
@@ -122,15 +125,21 @@ package netlist
 // an indented rule is still a rule, and a trailing word or comment is ignored); an empty rest is
 // skipped, anything else is loaded as one rule; the first bad line stops the load.
 //@ func LoadFromReader [C13]
+//@   log netlistLoadFromReader
 //@   wraparound
-//@   requires l != nil && reader != nil
+//@   requires l != nil && reader != nil && rep6(l)
 //@   modifies *
+//@   ensures rep6(l)
 //@   ensures calls(bufioNewScanner) == 1 && arg(bufioNewScanner, 0, 0) == reader
 //@   ensures calls(scanErr) == 1 ==> result == ret(scanErr, 0) && lastret(scanScan) == false
 //@   ensures calls(scanErr) == 0 ==> result != nil && lastret(netlistLoadFromText) != nil
 //@   loop 0:
-//@     invariant scanner != nil && l != nil && calls(scanErr) == 0
+//@     invariant scanner != nil && l != nil && calls(scanErr) == 0 && rep6(l)
 //@     each iter_calls(scanScan) == 1 && iter_ret(scanScan, 0) && iter_calls(scanText) == 1 && iter_calls(RemoveComment) == 2
 //@     each iter_arg(RemoveComment, 0, 0) == tsp(iter_ret(scanText, 0)) && iter_arg(RemoveComment, 0, 1) == "#" && iter_arg(RemoveComment, 1, 0) == iter_ret(RemoveComment, 0) && iter_arg(RemoveComment, 1, 1) == " "
 //@     each len(iter_ret(RemoveComment, 1)) == 0 ==> iter_calls(netlistLoadFromText) == 0
 //@     each len(iter_ret(RemoveComment, 1)) != 0 ==> iter_calls(netlistLoadFromText) == 1 && iter_arg(netlistLoadFromText, 0, 0) == l && iter_arg(netlistLoadFromText, 0, 1) == iter_ret(RemoveComment, 1) && iter_ret(netlistLoadFromText, 0) == nil
+
+// NewList: an empty list (trivially a list of valid masked IPv6 prefixes).
+//@ func NewList [C13]
+//@   ensures result != nil && fresh(result) && len(result.e) == 0 && !result.sorted
